@@ -1,6 +1,7 @@
 SPECIFICATION Spec
 CONSTANT MaxChunks = 2
-CONSTANT Flips = TRUE
+CONSTANT Flips = FALSE
 INVARIANT RoundTrip
 INVARIANT Total
+INVARIANT EmitCut
 CHECK_DEADLOCK FALSE
